@@ -2,7 +2,9 @@ package rules
 
 import (
 	"fmt"
+	"go/ast"
 	"go/token"
+	"go/types"
 	"sort"
 	"strings"
 
@@ -34,6 +36,21 @@ func ErrDiscipline(e *Env, id string) {
 	sort.Strings(names)
 	seenFn := map[*ssa.Function]bool{}
 	nsites := 0
+	// same-package callers of the anchored functions: whoever calls an anchored function has to honour its refusal
+	callersOf := map[*ssa.Function][]*ssa.Function{}
+	for _, g := range e.P.AllSrcFuncs(false) {
+		top := g
+		for top.Parent() != nil {
+			top = top.Parent()
+		}
+		core.InstrsOwn(g, func(in ssa.Instruction) {
+			if c, ok := in.(ssa.CallInstruction); ok {
+				if callee := core.StaticFn(c); callee != nil && callee.Pkg != nil && callee.Pkg == top.Pkg && callee != top {
+					callersOf[callee] = append(callersOf[callee], top)
+				}
+			}
+		})
+	}
 	for _, n := range names {
 		obj := lookupQuiet(e.P, n)
 		if obj == nil {
@@ -69,12 +86,18 @@ func ErrDiscipline(e *Env, id string) {
 			}
 			level = next
 		}
+		for _, caller := range callersOf[obj] {
+			if !strings.HasPrefix(core.FnName(caller), "examples/") && !e.P.IsTestPos(caller.Pos()) {
+				fam = append(fam, core.WithAnon(caller)...)
+			}
+		}
 		for _, f := range fam {
 			if seenFn[f] || len(f.Blocks) == 0 {
 				continue
 			}
 			seenFn[f] = true
 			nsites += errDiscFunc(e, rule, n, f)
+			errDiscDropped(e, rule, f)
 		}
 	}
 	e.R.Infof(rule, "coverage", "-", "%d anchored functions (with helpers and closures), %d tested (value, error) sites", len(seenFn), nsites)
@@ -179,10 +202,87 @@ func errDiscFunc(e *Env, rule, anchor string, f *ssa.Function) int {
 	return n
 }
 
+// errDiscDropped (E1c): an error delivered together with other results that are used is itself never looked at – it was
+// assigned to a variable that is overwritten before it is tested (`v, err := f(); if err = g(v); err != nil`). The value is then
+// used although the call that produced it may have refused.
+func errDiscDropped(e *Env, rule string, f *ssa.Function) int {
+	n := 0
+	core.InstrsOwn(f, func(in ssa.Instruction) {
+		call, ok := in.(*ssa.Call)
+		if !ok {
+			return
+		}
+		tup, isT := call.Type().(*types.Tuple)
+		if !isT || tup.Len() < 2 || !core.IsErrorType(tup.At(tup.Len()-1).Type()) {
+			return
+		}
+		var errEx *ssa.Extract
+		usedOthers := false
+		for _, ref := range core.Referrers(call) {
+			ex, isEx := ref.(*ssa.Extract)
+			if !isEx {
+				continue
+			}
+			live := false
+			for _, u := range core.Referrers(ex) {
+				if _, isDbg := u.(*ssa.DebugRef); !isDbg {
+					live = true
+				}
+			}
+			if ex.Index == tup.Len()-1 {
+				errEx = ex
+				if live {
+					errEx = nil
+					return
+				}
+			} else if live {
+				usedOthers = true
+			}
+		}
+		if errEx == nil || !usedOthers {
+			return
+		}
+		if errDiscardedExplicitly(e, call) {
+			return // `v, _ := f()`: a visible decision, not an accident
+		}
+		n++
+		callee := core.CalleeName(call)
+		if k := strings.LastIndex(callee, "/"); k >= 0 {
+			callee = callee[k+1:]
+		}
+		e.R.Fail(rule, fmt.Sprintf("%s:%s:error-never-tested", core.FnName(f), callee), e.pos(call), "the error of "+callee+" is assigned but overwritten before anything looks at it, while its other results are used: a refusal goes unnoticed and the zero value is processed")
+	})
+	return n
+}
+
 func skipUse(u ssa.Instruction) bool {
 	switch u.(type) {
 	case *ssa.DebugRef, *ssa.Phi, *ssa.Return:
 		return true // a return hands value and error on together; the caller's test is checked at the caller
 	}
 	return false
+}
+
+// errDiscardedExplicitly: the call is the right-hand side of an assignment whose last left-hand side is the blank identifier.
+func errDiscardedExplicitly(e *Env, call *ssa.Call) bool {
+	_, file := e.P.FileOf(call.Pos())
+	if file == nil {
+		return false
+	}
+	found := false
+	ast.Inspect(file, func(n ast.Node) bool {
+		as, ok := n.(*ast.AssignStmt)
+		if !ok || len(as.Rhs) != 1 || len(as.Lhs) < 2 {
+			return true
+		}
+		ce, isCall := as.Rhs[0].(*ast.CallExpr)
+		if !isCall || ce.Lparen != call.Pos() {
+			return true
+		}
+		if id, isID := as.Lhs[len(as.Lhs)-1].(*ast.Ident); isID && id.Name == "_" {
+			found = true
+		}
+		return false
+	})
+	return found
 }
